@@ -44,7 +44,12 @@ func (fr *frame) execInstr(in ssa.Instruction, st *State, reach string, b *ssa.B
 		return
 	case *ssa.Alloc:
 		et := x.Type().Underlying().(*types.Pointer).Elem()
-		if !x.Heap && !fr.pure {
+		if fr.pure {
+			z := s.zero(et)
+			fr.vals[x] = &Val{lv: &LVal{kind: lvPure, rootT: et, typ: et, pure: &z}}
+			return
+		}
+		if !x.Heap {
 			fr.cellSeq++
 			name := fmt.Sprintf("C:%s%s.%s.%d", fr.prefix, funcName(fr.fn), x.Comment, indexOfLocal(fr.fn, x))
 			lv := &LVal{kind: lvCell, name: name, rootT: et, typ: et}
@@ -120,6 +125,9 @@ func (fr *frame) execInstr(in ssa.Instruction, st *State, reach string, b *ssa.B
 		lv := fr.ptrLV(av, x.Addr.Type())
 		vv := fr.valOf(x.Val)
 		if fr.pure {
+			if lv.kind == lvPure {
+				u.write(st, lv, fr.valTerm(vv, st))
+			}
 			return
 		}
 		nst := st.clone()
@@ -193,6 +201,9 @@ func (fr *frame) execInstr(in ssa.Instruction, st *State, reach string, b *ssa.B
 		pn, ps, vn, vs := fr.mapHeaps(mt)
 		k := fr.valTerm(fr.valOf(x.Key), st)
 		v := fr.valTerm(fr.valOf(x.Value), st)
+		if g := globalMapOf(x.Map); g != "" && u.eng.mapInv[g] == "nonnil" {
+			u.oblige(fr.obName("mapinv", fr.describe(x.Map, 0)), "mapinv", nil, reach, nonNil(mt.Elem(), v), fr.pos(x.Pos()), "registry invariant: stored values are non-nil")
+		}
 		hp := u.heapGet(st, pn, ps)
 		hv := u.heapGet(st, vn, vs)
 		u.heapSet(st, pn, ps, fmt.Sprintf("(store %s %s (store (select %s %s) %s true))", hp, mv.t, hp, mv.t, k))
@@ -239,6 +250,22 @@ func (fr *frame) execInstr(in ssa.Instruction, st *State, reach string, b *ssa.B
 	}
 }
 
+func globalMapOf(v ssa.Value) string {
+	if u, ok := v.(*ssa.UnOp); ok && u.Op == token.MUL {
+		if g, ok := u.X.(*ssa.Global); ok {
+			return "G:" + g.Pkg.Pkg.Path() + "." + g.Name()
+		}
+	}
+	return ""
+}
+
+func nonNil(t types.Type, term string) string {
+	if _, ok := t.Underlying().(*types.Interface); ok {
+		return fmt.Sprintf("(not (= (i-tag %s) 0))", term)
+	}
+	return fmt.Sprintf("(not (= %s 0))", term)
+}
+
 func indexOfLocal(fn *ssa.Function, a *ssa.Alloc) int {
 	for i, l := range fn.Locals {
 		if l == a {
@@ -268,6 +295,9 @@ func (fr *frame) execLookup(x *ssa.Lookup, st *State, reach string) *Val {
 		present := fr.defSort("present", "Bool", fmt.Sprintf("(and (not (= %s 0)) (select (select %s %s) %s))", xv.t, hp, xv.t, k))
 		val := fr.def("mval", xt.Elem(), ite(present, fmt.Sprintf("(select (select %s %s) %s)", hv, xv.t, k), s.zero(xt.Elem())))
 		fr.assumeWF(xt.Elem(), val, st, reach)
+		if g := globalMapOf(x.X); g != "" && u.eng.mapInv[g] == "nonnil" && !fr.pure {
+			u.assume(and(reach, present), nonNil(xt.Elem(), val))
+		}
 		if x.CommaOk {
 			return &Val{tuple: []*Val{{t: val}, {t: present}}}
 		}
